@@ -108,6 +108,8 @@ impl StopController {
                 buf.extend_from_slice(format!("<[{tok_id}]>").as_bytes());
             } else if let Some(rx) = self.regex.as_mut() {
                 let mut state = rx.state;
+                #[cfg(llguidance_verif)]
+                crate::verif_seam::before_lock(&rx.dfa, "stop_controller.dfa");
                 let mut dfa = rx.dfa.lock().unwrap();
                 for &b in bytes {
                     buf.push(b);
